@@ -246,7 +246,7 @@ def check_conv(ctx, rule_rt='AGREE-3'):
     decided = True
     for ap in (True, False):
         obj = Obj(fcls, {'_model_names': symarr('names', (M,)), '_apertures': symarr('cap', (A,), unit=unit_atom('Uap')) if ap else None,
-                         '_flux': symarr('flux', (M, A if ap else None), unit=unit_atom('Uf')), '_error': symarr('err', (M, A if ap else None), unit=unit_atom('Uf')),
+                         '_flux': symarr('flux', (M, A if ap else None), unit=unit_atom('Uf')), '_error': symarr('err', (M, A if ap else None), unit=unit_atom('Ue')),
                          '_wavelength': scalar(sym('cw') * unit_atom('Uw'), unit_atom('Uw'))})
         Iw, Ir, out = _run(repo, (mod, 'ConvolvedFluxes'), 'ConvolvedFluxes.write', 'ConvolvedFluxes.read', obj, {})
         tag = 'convolved-flux round trip (%s)' % ('with apertures' if ap else 'without apertures')
